@@ -154,13 +154,15 @@ def build(tier):
                     Target(f'map_chunk_task_{tag}', [tc], H), Target(f'map_index_task_{tag}', [ti], H)]
     targets += other_targets()
     import count_smt
+    import conc
+    bounded = conc.targets(tier, globals())
     vcs, fns = [], []
     for tag, _, _ in TSIZES:
         v, info = count_smt.vcs_for(tag)
         vcs += v
         fns.append(info)
     return {
-        'targets': targets, 'vcs': vcs, 'functions': fns,
+        'targets': targets, 'vcs': vcs, 'functions': fns, 'bounded': bounded,
         'decided': [
             'pool_t::map (chunked), tsize = tensor_size_t / size_t / int, every elements, chunksize >= 1, pool size >= 1: the (begin, end) ranges handed to the operator (sequential branch) or captured by value into the enqueued tasks (parallel branch) tile [0, elements): first at 0, consecutive, non-empty, end == min(begin + chunksize, elements), last ends at elements; the recurrence has one solution, so both branches generate the same sequence; only one branch generates; something is generated iff elements > 0',
             'number of generated ranges == (elements + chunksize - 1) / chunksize == the count passed to section.reserve (SMT over Int, with overflow obligations)',
